@@ -152,7 +152,8 @@ def registry():
                           'or old(position(ctr_state)) + data_len >= 2**128))' % (NULLS, ERR_CTR_REPEATED_KEY_STREAM),
              'position': 'result == 0 ==> position(ctr_state) == old(position(ctr_state)) + data_len',
              'state': 'result == 0 ==> (buffer_ok(ctr_state) and within_limit(ctr_state))'},
-         lemmas={'len_lo': 'not null(ctr_state) ==> ctr_state.length_lo == u64(old(ctr_state.length_lo) + consumed())',
+         lemmas={'progress': 'consumed() <= old(data_len)',
+                 'len_lo': 'not null(ctr_state) ==> ctr_state.length_lo == u64(old(ctr_state.length_lo) + consumed())',
                  'len_hi': 'not null(ctr_state) ==> ctr_state.length_hi == u64(old(ctr_state.length_hi) + (1 if ctr_state.length_lo < old(ctr_state.length_lo) else 0))',
                  'position': 'not null(ctr_state) ==> position(ctr_state) == old(position(ctr_state)) + consumed() or '
                              '(ctr_state.length_hi == 0 and result == %d)' % ERR_CTR_REPEATED_KEY_STREAM},
